@@ -330,7 +330,7 @@ def run_cluster(ctx, prop):
             if d is not None:
                 ctx.disagree("runner trace conformance", inp, d, "Model/Runner.lean step")
 
-    n = ctx.n(250, 6000)
+    n = ctx.n(250, 2500)
     for i in range(n):
         if ctx.out_of_time() or len(ctx.violations) >= 5:
             break
@@ -346,7 +346,7 @@ def run_cluster(ctx, prop):
     for programs, faults, submit in small:
         if ctx.out_of_time() or len(ctx.violations) >= 5:
             break
-        tot += explore_bounded(programs, faults, bound=ctx.n(2, 3), limit=ctx.n(400, 12000),
+        tot += explore_bounded(programs, faults, bound=ctx.n(2, 3), limit=ctx.n(400, 3000),
                                on_exec=lambda ex: handle(ex, "bounded-preemption"), submit=submit,
                                stop=lambda: ctx.out_of_time() or len(ctx.violations) >= 5)
     ctx.extra["bounded_preemption_schedules"] = tot
